@@ -78,6 +78,11 @@ def success_start(f, c):
                     if ff is None:
                         ff = t['otherwise']
                     return ff if x.name == 'is_err' else tt
+    if c.name.startswith('compare_exchange') or c.name == 'fetch_update':
+        # `match flag.compare_exchange(..) { Ok(_) => .., Err(_) => .. }`: the Ok edge of the result
+        ob = core.ok_block(f, c)
+        if ob is not None:
+            return ob
     return c.t['t']
 
 
